@@ -139,9 +139,17 @@ def w_structured(ops, rng, n):
     for b in bases:
         for m1 in MARKS:
             emit(b + m1)
+            emit(b + '\u00ad' + m1)                    # an ignored code point between base and mark: NFC after mapping only
             for m2 in MARKS:
                 emit(b + m1 + m2)
                 emit('x.' + b + m1 + m2 + 'y')
+                emit(b + m1 + m2 + '.e\u0301')          # a sibling label that is not NFC makes the normaliser run on the whole domain
+    for wide in ('\uff41', '\uff21'):                   # a folded base letter followed by a composing mark
+        for m1 in MARKS:
+            emit(wide + m1)
+            emit('x' + wide + m1 + '.com')
+            for m2 in MARKS:
+                emit(wide + m1 + m2)
 
 
 def w_wpt_inputs(ops, rng, n):
@@ -178,6 +186,32 @@ def w_puny_labels(ops, rng, n):
                 op_a(ops, puny(lab) + '.ß')       # the ACE form inside a non-ASCII domain: decoder + validation
             except UnicodeError:
                 pass
+
+
+def w_puny_plain(ops, rng, n):
+    """RFC 3492 on labels of unmapped, NFC-stable letters far outside the fragment (Latin-1, Greek, Cyrillic, kana, CJK):
+    the labels found by lib/gen_puny_boundary.py on which the bias adaptation meets its loop boundary (455) exactly or
+    misses it by one, then n random ones with long ASCII prefixes and wide code point gaps (events flagged `plain`:
+    trace/TraceIdna.tla compares with "xn--" + PunyEncode of the label's own code points)"""
+    import json
+    import gen_puny_boundary
+    p = os.path.join(os.path.dirname(os.path.abspath(__file__)), 'puny_boundary.json')
+    if os.path.exists(p):
+        for k, labs in sorted(json.load(open(p)).items()):
+            for lab in labs:
+                ops.reset()
+                ops.lines.append('AP %s' % hx(u8(lab)))
+    letters = gen_puny_boundary.plain_letters()
+    small = [c for c in letters if c < 0x3000]
+    for i in range(n):
+        k = rng.choice([0, 0, 1, 2, 3, 5, 8, 12, 20, 40])
+        cps = [rng.choice(b'abcdexyz0129-') for _ in range(k)] + [rng.choice(small if rng.random() < 0.6 else letters) for _ in range(rng.choice([1, 2, 3, 4, 6, 9]))]
+        if rng.random() < 0.4:
+            rng.shuffle(cps)
+        if cps[0] == 45:
+            cps[0] = 97
+        ops.reset()
+        ops.lines.append('AP %s' % hx(u8(''.join(chr(c) for c in cps))))
 
 
 # ------------------------------------------------------------------ arbitrary code points
